@@ -67,6 +67,7 @@ func runScript(c *Case, o *Obs, in []byte) {
 			} else {
 				st.Ok = true
 				st.Out = runesOf([]byte(raw))
+				holdBytes("a RawMessage Decode filled", []byte(raw))
 				if st.Out == nil {
 					st.Out = []int{}
 				}
@@ -96,6 +97,7 @@ func runScript(c *Case, o *Obs, in []byte) {
 				for _, t := range typed {
 					raw := t.V.(*json.RawMessage)
 					st.Items = append(st.Items, [2][]int{bytesOf([]byte(t.Type)), runesOf([]byte(*raw))})
+					holdBytes("an entry DecodeSeries returned", []byte(*raw))
 					cj, err := canonJSON([]byte(*raw))
 					if err != nil {
 						cj = "E(" + err.Error() + ")"
@@ -202,6 +204,7 @@ func streamOf(o *Obs, r io.Reader, limit int) {
 			return
 		}
 		o.Vals = append(o.Vals, runesOf([]byte(raw)))
+		holdBytes("a RawMessage Decode filled", []byte(raw))
 		cj, err := canonJSON([]byte(raw))
 		if err != nil {
 			cj = "E(" + err.Error() + ")"
@@ -221,6 +224,7 @@ func seriesOf(c *Case, o *Obs, r io.Reader) {
 		for _, t := range typed {
 			raw := t.V.(*json.RawMessage)
 			o.Items = append(o.Items, [2][]int{bytesOf([]byte(t.Type)), runesOf([]byte(*raw))})
+			holdBytes("an entry DecodeSeries returned", []byte(*raw))
 		}
 	} else if typed != nil {
 		o.Note = "result together with errors"
@@ -414,6 +418,53 @@ func runReuse(c *Case, o *Obs) {
 		}
 		if again := one(d); !same(again, firsts[i]) {
 			note("document %d (%s): a second call gives another result than the first", i, printable(d))
+		}
+	}
+	// several Decoders alive at the same time, their calls interleaved: each
+	// must read its own document as if it were alone
+	alone := make([]*Obs, len(docs))
+	decs := make([]*jsonx.Decoder, len(docs))
+	inter := make([][]string, len(docs))
+	done := make([]bool, len(docs))
+	for i, d := range docs {
+		alone[i] = &Obs{}
+		streamOf(alone[i], bytes.NewReader(d), len(d))
+		decs[i] = jsonx.NewDecoder(bytes.NewReader(origs[i]))
+	}
+	for round, left := 0, len(docs); left > 0 && round < 4096; round++ {
+		for i := range docs {
+			if done[i] {
+				continue
+			}
+			if !decs[i].More() {
+				done[i] = true
+				left--
+				continue
+			}
+			var raw json.RawMessage
+			if es := decs[i].Decode(&raw); es != nil {
+				inter[i] = append(inter[i], "!"+strings.Join(errNames(es), ","))
+				done[i] = true
+				left--
+				continue
+			}
+			inter[i] = append(inter[i], string(raw))
+		}
+	}
+	for i := range docs {
+		var want []string
+		for _, v := range alone[i].Vals {
+			rs := make([]rune, len(v))
+			for k, r := range v {
+				rs[k] = rune(r)
+			}
+			want = append(want, string(rs))
+		}
+		if alone[i].Fin != 0 {
+			want = append(want, "!"+strings.Join(alone[i].Errs, ","))
+		}
+		if strings.Join(want, "\x00") != strings.Join(inter[i], "\x00") {
+			note("document %d (%s): a Decoder whose calls are interleaved with those of other Decoders reads %q, alone %q", i, printable(origs[i]), inter[i], want)
 		}
 	}
 	var wg sync.WaitGroup
